@@ -295,3 +295,36 @@ Arguments FixContent {C}. Arguments FixMove {C}.
 Arguments handle_rename {C}. Arguments apply_fix {C}. Arguments run_fixes {C}.
 Arguments pending_content {C}. Arguments pending_moves {C}. Arguments fix_loop {C}.
 Arguments LDone {C}. Arguments LErr {C}. Arguments LOutOfFuel {C}.
+
+(* ---------------------------------------------------------------- specification vocabulary *)
+
+(* Conservation is stated on files that carry an identity: the content of a file is a pair
+   (origin, text); the command loads every file tagged with its own path. *)
+Section Origins.
+  Variable T : Type.
+  Definition tagged := (str * T)%type.
+  Definition origin_of (kv : str * tagged) : str := fst (snd kv).
+  Definition origins (m : amap tagged) : list str := map origin_of m.
+  Definition tag_files (m : amap T) : amap tagged := map (fun kv => (fst kv, (fst kv, snd kv))) m.
+  Definition self_tagged (m : amap tagged) : Prop := forall kv, In kv m -> origin_of kv = fst kv.
+
+  (* a non-moving fix rewrites the text, never the identity of the file *)
+  Definition preserves_origin (x : fixres tagged) : Prop :=
+    match x with
+    | FixContent _ g => forall c, fst (g c) = fst c
+    | FixMove _ _ _ => True
+    end.
+End Origins.
+Arguments origin_of {T}. Arguments origins {T}. Arguments tag_files {T}.
+Arguments self_tagged {T}. Arguments preserves_origin {T}.
+
+(* the k-th name the rename loop tries *)
+Fixpoint cand_iter (k : nat) (to : str) : str :=
+  match k with O => to | S k' => cand_iter k' (rename_candidate to) end.
+
+(* a clean absolute file name: directory components [ds] and base name [nb] *)
+Definition clean_file (to : str) (ds : list str) (nb : str) : Prop :=
+  to = cpath (ds ++ [nb]) /\ Forall regular ds /\ regular nb.
+
+(* the names that can make Rename report a conflict *)
+Definition occupied {C} (p : provider C) : list str := akeys (pv_files p) ++ pv_disk p.
